@@ -300,6 +300,10 @@ where
 
         let start_time = Instant::now();
         while let Some(current_idx) = queue.pop_front() {
+            #[cfg(oxmpl_verif)]
+            if crate::verif::tick() {
+                return Err(PlanningError::Timeout);
+            }
             if start_time.elapsed() > timeout {
                 return Err(PlanningError::Timeout);
             }
